@@ -45,7 +45,7 @@ type Op struct {
 	Tok     Ref    `json:"tok"`
 	Actor   *Ref   `json:"actor,omitempty"`
 	Caller  string `json:"caller,omitempty"` // owner | ca | cb | cp | ck | svc
-	Cred    string `json:"cred,omitempty"`   // right | wrong | idonly
+	Cred    string `json:"cred,omitempty"`   // right | wrong | idonly | madeup-basic | madeup-post (a made-up secret, also for clients that have none: public, private_key_jwt)
 	Hint    string `json:"hint,omitempty"`
 	Fault   string `json:"fault,omitempty"` // "" | error | partial  (storage failure inside userinfo / introspection)
 	Form    bool   `json:"form,omitempty"`  // userinfo: token in the POST body
@@ -143,19 +143,19 @@ func genOp(t *rapid.T, i int, hosts bool) Op {
 		o.Fault = rapid.SampledFrom([]string{"", "", "", "", "", "", "", "error", "partial"}).Draw(t, label+"fault")
 	case "introspect":
 		o.Caller = rapid.SampledFrom([]string{"owner", "owner", "owner", "ca", "cb", "cp", "ck", "svc"}).Draw(t, label+"caller")
-		o.Cred = rapid.SampledFrom([]string{"right", "right", "right", "right", "right", "right", "right", "wrong", "idonly"}).Draw(t, label+"cred")
+		o.Cred = rapid.SampledFrom([]string{"right", "right", "right", "right", "right", "right", "right", "wrong", "idonly", "madeup-basic", "madeup-post"}).Draw(t, label+"cred")
 		o.Fault = rapid.SampledFrom([]string{"", "", "", "", "", "", "", "error", "partial"}).Draw(t, label+"fault")
 		o.Spoof = rapid.IntRange(0, 3).Draw(t, label+"spoof") == 0
 	case "revoke":
 		o.Caller = rapid.SampledFrom([]string{"owner", "owner", "owner", "owner", "ca", "cb", "cp", "ck", "svc"}).Draw(t, label+"caller")
-		o.Cred = rapid.SampledFrom([]string{"right", "right", "right", "right", "right", "wrong", "idonly"}).Draw(t, label+"cred")
+		o.Cred = rapid.SampledFrom([]string{"right", "right", "right", "right", "right", "wrong", "idonly", "madeup-basic", "madeup-post"}).Draw(t, label+"cred")
 		o.Hint = rapid.SampledFrom([]string{"", "", "access_token", "refresh_token", "junk"}).Draw(t, label+"hint")
 		o.Spoof = rapid.IntRange(0, 2).Draw(t, label+"spoof") == 0
 	case "end_session":
 		o.ES = rapid.SampledFrom([]string{"hint", "hint", "hint+client", "clientonly", "exphint", "exphint", "exphint+client"}).Draw(t, label+"es")
 	case "exchange":
 		o.Caller = rapid.SampledFrom([]string{"ca", "ca", "ca", "cb", "cb", "ck", "owner"}).Draw(t, label+"caller")
-		o.Cred = rapid.SampledFrom([]string{"right", "right", "right", "right", "right", "right", "wrong", "idonly"}).Draw(t, label+"cred")
+		o.Cred = rapid.SampledFrom([]string{"right", "right", "right", "right", "right", "right", "wrong", "idonly", "madeup-basic", "madeup-post"}).Draw(t, label+"cred")
 		o.Req = rapid.SampledFrom([]string{"", "", "access", "refresh"}).Draw(t, label+"req")
 		if rapid.IntRange(0, 2).Draw(t, label+"hasactor") == 0 {
 			a := genRef(t, label+"actor", 4)
@@ -192,7 +192,7 @@ func genCase0(t *rapid.T) Case {
 		}
 	}
 	c.CBPost = rapid.IntRange(0, 3).Draw(t, "cbpost") == 0
-	c.ExtraAud = rapid.SampledFrom([]string{"", "", "cb", "ck", "ca"}).Draw(t, "extraaud")
+	c.ExtraAud = rapid.SampledFrom([]string{"", "", "cb", "ck", "ca", "cp"}).Draw(t, "extraaud")
 	c.Extras = rapid.IntRange(0, 2).Draw(t, "extras") == 0
 	c.TELax = rapid.IntRange(0, 9).Draw(t, "telax") == 0
 	c.RefreshIDs = rapid.IntRange(0, 2).Draw(t, "refreshids") == 0
@@ -596,11 +596,19 @@ func spoofed(c vkit.Cred, spoof bool, caller *vkit.ClientSpec, p presented) vkit
 	return c
 }
 
+// madeUpSecret is nobody's secret. Presented for a client that has a secret it is a wrong secret; presented for a client
+// that has none (public, private_key_jwt) it proves nothing either: there is nothing it could be compared with.
+const madeUpSecret = "made-up-secret"
+
 func (e *env) cred(cl *vkit.ClientSpec, kind string, h int) vkit.Cred {
 	iss := e.issuer(h)
 	switch kind {
 	case "idonly":
 		return vkit.Cred{Kind: "none", ClientID: cl.ID}
+	case "madeup-basic":
+		return vkit.Cred{Kind: "basic", ClientID: cl.ID, Secret: madeUpSecret}
+	case "madeup-post":
+		return vkit.Cred{Kind: "post", ClientID: cl.ID, Secret: madeUpSecret}
 	case "wrong":
 		switch cl.AuthMethod {
 		case "none":
@@ -622,9 +630,14 @@ func (e *env) authVerdict(endpoint string, cl *vkit.ClientSpec, kind string) int
 	public := cl.AuthMethod == "none"
 	if public {
 		if endpoint == "revocation" {
+			if strings.HasPrefix(kind, "madeup-") {
+				// identification is all a public client can offer; a secret next to it is neither required nor verifiable.
+				// Whether such a request is served is not the statement's subject (the two routers differ): grey
+				return 0
+			}
 			return 1 // public clients may revoke their own tokens by client_id
 		}
-		return -1
+		return -1 // a public client cannot prove to be itself, whatever it sends along
 	}
 	if kind != "right" {
 		return -1
@@ -1399,6 +1412,8 @@ func (e *env) sweep() {
 					break
 				}
 			}
+			// ... and by a caller that names the token's client but cannot prove to be it (made-up secret, Basic / form)
+			e.introspectP(Op{Kind: "introspect", Caller: t.client, Cred: []string{"madeup-basic", "madeup-post"}[i%2]}, p, h)
 		}
 		e.exchangeP(Op{Kind: "exchange", Caller: "ca", Cred: "right"}, p, nil, h)
 		e.checkState(Op{Kind: "sweep"})
@@ -1443,10 +1458,10 @@ func describe(o Op) string {
 var prop = vkit.Prop[Case]{
 	ID: "C08",
 	Rule: "cases = provider (router x static/host-derived issuer x RS256/ES256 x AES key x per-client opaque/JWT access tokens x basic/post client x extra audience x extras capabilities x refresh-token ids equal to / different from the token string x (1/10) storage that skips the liveness check of exchange inputs = grey) " +
-		"x history of 4-31 symbolic ops (issue by 5 clients incl. public, private_key_jwt and client_credentials; userinfo header/form; introspect as owner/other/public client with right/wrong/no credentials; " +
-		"revoke with hint none/access_token/refresh_token/junk as owner/foreign/public/unauthenticated; end_session by fresh or expired-but-validly-signed id_token_hint (with / without client_id) or client_id only; expire; token exchange with subject and optional actor) over genuine access and refresh tokens and 23 forging recipes " +
+		"x history of 4-31 symbolic ops (issue by 5 clients incl. public, private_key_jwt and client_credentials; userinfo header/form; introspect as owner/other/public client with right/wrong/no credentials or a made-up secret (Basic / form, also for the public and the private_key_jwt client, which have none); " +
+		"revoke with hint none/access_token/refresh_token/junk as owner/foreign/public/unauthenticated (incl. made-up secret); end_session by fresh or expired-but-validly-signed id_token_hint (with / without client_id) or client_id only; expire; token exchange with subject and optional actor) over genuine access and refresh tokens and 23 forging recipes " +
 		"(CFB bit flips, targeted malleation to a sibling token, re-sealing under the same / another key, unknown id, wrong subject, truncation, extension, JWT clone / untrusted key / no kid / expired / other issuer / alg none / HS256 with public key / signature flip / payload swap, raw garbage, storage faults error/partial); " +
-		"after 3 of 4 histories every token is presented once more at userinfo, introspection and exchange (sweep); oracle = per-token liveness (issued, not revoked, not expired, session not ended) + audience + authenticated caller, string denotation computed with crypto/aes; " +
+		"after 3 of 4 histories every token is presented once more at userinfo, introspection (by an authenticated audience member, and by its own client with a made-up secret) and exchange (sweep); oracle = per-token liveness (issued, not revoked, not expired, session not ended) + audience + authenticated caller, string denotation computed with crypto/aes; " +
 		"non-trivial = the history uses a token after its revocation / logout / expiry, or presents a forged string derived from a live token; distinct = router + set of (endpoint, token kind, forging recipe, verdict, reason) of those uses",
 	Gen: genCase,
 	Run: run,
